@@ -510,7 +510,7 @@ def generate(template, out_verus, out_raw=None, out_meta=None):
         meta = ex['meta']
         # parameter-name fidelity check
         if meta['kind'] == 'fn' and fn['opts'].get('params', 'check') != 'skip':
-            want = fn['params'] or sig_fn_params(fn['sig'])
+            want = fn['params'] if fn['params'] is not None else sig_fn_params(fn['sig'])
             have = rsx.param_names(ex['sig'])
             if want != have:
                 raise LostAnchor('%s: parameter list changed: contract has %s, source has %s' % (fn['id'], want, have))
